@@ -126,6 +126,16 @@ CHECKS = {
             "Trusted: TLC; 1e-8 relative tolerance; |delta_in| is 0 or >= 2^-16 (ambiguous band excluded as the property states); "
             "every supported activation class is exercised, the transcendental ones through an exact polynomial forward.",
             "DESIGN.md §5 C04/C05"),
+    "C20": (["Greedy", "GreedyMC"],
+            "step-shaped TLA+ model of the greedy loop with a brute-force candidate set and tie branching (Greedy.tla) model-checked "
+            "with TLC (safety, action property, liveness); the leaves of the model per problem are the admissible results against "
+            "which the real greedy_substitution is replayed",
+            "TLC explores, for every problem of the family, every tie-resolution of the loop that always takes a best (motif, "
+            "position) among all fitting positions, checks never-worse / monotone / only-in-windows / iteration bound / termination "
+            "(max_iter = -1 included), and yields the set of admissible final sequences; the implementation's result on the mirrored "
+            "exact-integer model must be one of them with the same loss.",
+            "Trusted: TLC; the linear read-out model is defined in TLA+ and mirrored in torch (cross-checked through the final loss).",
+            "DESIGN.md §5 C20"),
 }
 
 ALL = ["C%02d" % i for i in range(1, 21)]
